@@ -34,7 +34,8 @@ def ixOfJson (j : Json) : Option Ix := do
 
 def fkOfJson (j : Json) : Option Fk := do
   pure { name := ← getStr j "name", cols := getStrList j "cols", reftable := ← getStr j "reftable",
-         refcols := getStrList j "refcols", ondelete := getStr j "ondelete", onupdate := getStr j "onupdate" }
+         refcols := getStrList j "refcols", ondelete := getStr j "ondelete", onupdate := getStr j "onupdate",
+         deferrable := getBool j "deferrable", initially := getStr j "initially" }
 
 def tableOfJson (j : Json) : Option Table := do
   let name ← getStr j "name"
